@@ -35,7 +35,8 @@ CASES = {
 }
 MODULES = {"C18": "checks.c18_generated_files_pass", "C19": "checks.c19_assertions_survive", "C24": "checks.c24_seed_roundtrip"}
 
-# break -> (description, expected key prefixes)            "!prefix" = this key of the baseline must DISAPPEAR (proposed patch)
+# break -> (description, expected key prefixes)    "!prefix" = this key of the baseline must DISAPPEAR (proposed patch);
+#                                                  "~prefix" = an anomaly (not a witness) with this prefix must appear, "~!prefix" must not
 BREAKS = {
     "C18": {
         "writer_omits_import_sys": ("the written file lacks `import sys`", ["collection-error:NameError", "fails:NameError:sys-not-imported"]),
@@ -44,7 +45,8 @@ BREAKS = {
         "no_exception_wrapping": ("writer never wraps raising statements / never marks xfail", ["fails:ValueError", "fails:TypeError", "fails:"]),
         "approx_wrong_value": ("float assertions rendered against value+1", ["fails:AssertionError:float-approx"]),
         "filter_execution_times_out": ("environment, not code: every assertion-filtering execution times out (machine load) -> the filter "
-                                       "keeps all unverified assertions", ["fails:AssertionError:attr-eq-int"]),
+                                       "keeps all unverified assertions; reported as an anomaly, not a witness", ["~after-execution-timeouts:fails:AssertionError:attr-eq-int"]),
+        "filter_execution_times_out,fix_filter": ("same environment + proposed fail-closed patch of the assertion filter: nothing fails", ["~!after-execution-timeouts:"]),
         "fix_needs_pytest": ("proposed patch: import pytest whenever the rendered functions reference it", ["!fails:NameError:pytest-not-imported"]),
         "fix_ruv,fix_needs_pytest,fix_minimizer": ("all three proposed patches (remove_unused_variables, needs_pytest, assertion-aware minimiser)",
                                                    ["!fails:NameError:pytest-not-imported", "!fails:AssertionError:var-eq-int"]),
@@ -113,14 +115,19 @@ def main(argv):
             gone = [k for k in base["keys"] if k not in res["keys"]]
             ok = True
             for e in expected:
-                if e.startswith("!"):
+                if e.startswith("!") :
                     ok = ok and any(k.startswith(e[1:]) for k in base["keys"]) and not any(k.startswith(e[1:]) for k in res["keys"])
-            pos = [e for e in expected if not e.startswith("!")]
+            for e in expected:
+                if e.startswith("~!"):
+                    ok = ok and not any(k.startswith(e[2:]) for k in res["anomalies"])
+                elif e.startswith("~"):
+                    ok = ok and any(k.startswith(e[1:]) for k in res["anomalies"])
+            pos = [e for e in expected if not e.startswith(("!", "~"))]
             if pos:
                 ok = ok and any(k.startswith(e) for k in new for e in pos)
             if res["inconclusive"] or not res["evals"]:
                 ok = False
-            print(f"  {'CAUGHT ' if ok else 'MISSED '} {b}: {desc}\n      new keys: {new}\n      gone keys: {gone}"
+            print(f"  {'CAUGHT ' if ok else 'MISSED '} {b}: {desc}\n      new keys: {new}\n      gone keys: {gone}\n      anomalies: {res['anomalies']}"
                   + (f"\n      inconclusive: {res['inconclusive']}" if res["inconclusive"] else ""))
             if not ok:
                 not_caught.append((c, b))
